@@ -335,6 +335,7 @@ def obligations(tier, seed):
         obs.append(dict(name='est_stub_values_n%d' % n, func='h_est_stub', param=dict(n=n, mode='values', ranges=False), timeout=to))
     for n in (1, 2) if q else (1, 2, 3):
         obs.append(dict(name='est_twice_n%d' % n, func='h_est_twice', param=dict(n=n), timeout=to))
+        obs.append(dict(name='est_incomplete_cp_n%d' % n, func='h_est_incomplete_cp', param=dict(n=n), timeout=to))
         obs.append(dict(name='est_incomplete_n%d' % n, func='h_est_incomplete', param=dict(n=n), timeout=to))
     temps = [298.15, 500.0] if q else [100.0, 298.15, 300.0, 500.0, 1000.0, 1500.0]
     import random
@@ -351,3 +352,50 @@ def obligations(tier, seed):
 
 def validate(tier, seed):
     return []
+
+
+def h_est_incomplete_cp(d: bool):
+    """
+    post: _[0]
+    """
+    begin()
+    # real ThermochemIncomplete constituents that HAVE heat-capacity data (one symbolic point) but may lack H_ref or S_ref:
+    # the estimate must raise the incomplete-data error for the missing property, never return a partial sum
+    from vf.stubs.numeric import PolySpline
+    m = th.install()
+    n = PARAM.get('n', 2)
+    names = ['g%d' % i for i in range(n)]
+    Tref = 298.15
+    contents, H, S, CP = {}, {}, {}, {}
+    th.patch_spline(None, record_only=True)
+    for i, g in enumerate(names):
+        H[g] = R('h%d' % i) if B('hasH%d' % i) else None
+        S[g] = R('s%d' % i) if B('hasS%d' % i) else None
+        CP[g] = R('cp%d' % i)
+        contents[g] = {'thermochem': m['inc'].ThermochemIncomplete(H[g], S[g], {300.0: CP[g]}, Tref, (200.0, 400.0))}
+    lib = _L.GroupLibrary(None, contents)
+    counts = dict((g, R('n%d' % i)) for i, g in enumerate(names))
+    try:
+        est = lib.Estimate(counts, 'thermochem')
+    except Exception as e:
+        return finish(False, 'raised:' + type(e).__name__)
+    ok, status = True, 'ok'
+    for getter, tab in (('get_HoRT', H), ('get_SoR', S)):
+        must_raise = any(tab[g] is None for g in names)
+        try:
+            v = getattr(est, getter)(Tref)
+            if must_raise:
+                ok, status = False, '%s returned a partial sum although a descriptor has no data for it' % getter
+                continue
+            want = 0
+            for g in reversed(names):
+                want = want + counts[g] * tab[g]
+            okc, _ = all_close([(v, want)])
+            if not okc:
+                ok, status = False, '%s is not the count-weighted sum' % getter
+        except IncompleteDataError:
+            if not must_raise:
+                ok, status = False, '%s raised incomplete-data without cause' % getter
+        except Exception as e:
+            ok, status = False, '%s raised:%s' % (getter, type(e).__name__)
+    return finish(ok, status)
